@@ -1,16 +1,28 @@
 /-
   C16 — property theorems (Streamix and ControlStream).  Only statements of the property,
   non-vacuity examples and the audit live here; helper lemmas are in `ALV.Lemmas.C16*`.
+
+  Three layers:  `prun` — generator-level model (`ALV.Model.C16Gen`: iterator objects, the
+  to_remove pass by identity, `count += 1.` at the resumption);  `mrun` — the same machine with
+  the two passes fused (`ALV.Model.C16`);  `srun` — the specification (`ALV.Spec.C16`: a log of
+  events with closed-form start times and a closed-form sum).  The theorems below are about
+  `prun`, the machine the driver runs against the real code.
 -/
-import ALV.Lemmas.C16
-import ALV.Lemmas.C16Inv
+import ALV.Lemmas.C16Main
+import ALV.Lemmas.C16Gen
 import ALV.Lemmas.C16Ctl
-import ALV.Lemmas.C16Batch
 import ALV.Common.Audit
 
 namespace ALV.Props.C16
 open ALV.C16
 variable {α β : Type}
+
+/-- **C16.0** the generator-level machine (objects with identity, summing pass then removal pass
+with `list.remove`, `count` incremented when the generator is resumed) shows, for every history,
+the observations of the fused machine. -/
+theorem generator_eq_fused [Add α] (zero : α) (keep : Bool) (ops : List (Op α)) :
+    (prun zero (PState.init keep) ops).2 = (mrun zero (MState.init keep) ops).2 :=
+  (prun_refines zero ops _ (pinv_init keep)).1
 
 /-- **C16.1** (central refinement).  For every history — any interleaving of `add` (any rational
 delta, any finite data), `next` and assignments to `keep`, from a fresh Streamix with any `keep`
@@ -20,31 +32,35 @@ what the specification says: every `add` is accepted / rejected alike, every `ne
 `max(⌈T_i − 1/2⌉, moment added)` has been reached, starts the same number of events at that
 sample, and ends (StopIteration) at the same `next`; after the end nothing revives it. -/
 theorem streamix_model_eq_spec [Add α] (zero : α) (keep : Bool) (ops : List (Op α)) :
-    (mrun zero (MState.init keep) ops).2 = (srun zero (SState.init keep) ops).2 :=
-  (run_sim zero ops _ _ (sim_init keep)).1
+    (prun zero (PState.init keep) ops).2 = (srun zero (SState.init keep) ops).2 := by
+  rw [generator_eq_fused, fused_eq_spec]
 
-/-- **C16.2** (the invariant behind "no drift").  After any history
-`count = (samples delivered) + 1/2 − (cumulative time of the events started so far)`, the started
-time being the accepted time minus what still waits in `_not_playing`. -/
+/-- **C16.2** (the invariant behind "no drift").  After any history the generator's local
+`count` is `(index of the sample being computed) + 1/2 − (cumulative time of the events started
+so far)`: while the generator is suspended at the yield the index is `delivered − 1`, otherwise
+`delivered`; the started time is the accepted time minus what still waits in `_not_playing`. -/
 theorem count_invariant [Add α] (zero : α) (keep : Bool) (ops : List (Op α)) :
-    (mrun zero (MState.init keep) ops).1.count =
-      (delivered (mrun zero (MState.init keep) ops).2 : Rat) + 1/2 -
-        (acceptedTime ops - qsum (mrun zero (MState.init keep) ops).1.notPlaying) := by
-  have h0 : CountInv (MState.init keep : MState α) 0 0 := by
-    simp [CountInv, MState.init, qsum]
-  have := countInv_run zero ops _ 0 0 h0
-  simpa [CountInv] using this
+    (prun zero (PState.init keep) ops).1.count =
+      (delivered (prun zero (PState.init keep) ops).2 : Rat)
+        - (if (prun zero (PState.init keep) ops).1.suspended then 1 else 0) + 1/2 -
+        (acceptedTime ops - qsum (absQ (prun zero (PState.init keep) ops).1.notPlaying)) := by
+  obtain ⟨h1, h2, _⟩ := prun_refines zero ops (PState.init keep : PState α) (pinv_init keep)
+  have h := fused_count_invariant zero keep ops
+  rw [absP_init] at h1 h2
+  rw [← h1, ← h2] at h
+  simp only [absP] at h
+  split at h <;> rename_i hs <;> simp only [hs, if_true, Bool.false_eq_true, if_false] <;> linarith
 
 /-- **C16.3** a negative delta raises ValueError and leaves the mixer as it was. -/
-theorem negative_delta_rejected [Add α] (zero : α) (s : MState α) (d : Rat) (x : List α) (hd : d < 0) :
-    mstep zero s (.add d x) = (s, .valueError) := by
-  simp [mstep, madd, hd]
+theorem negative_delta_rejected [Add α] (zero : α) (s : PState α) (d : Rat) (x : List α) (hd : d < 0) :
+    pstep zero s (.add d x) = (s, .valueError) := by
+  simp [pstep, padd, hd]
 
 /-- … so a rejected `add` anywhere in a history changes no other observation and no state. -/
-theorem rejected_add_is_noop [Add α] (zero : α) (s : MState α) (d : Rat) (x : List α) (hd : d < 0)
+theorem rejected_add_is_noop [Add α] (zero : α) (s : PState α) (d : Rat) (x : List α) (hd : d < 0)
     (ops : List (Op α)) :
-    mrun zero s (.add d x :: ops) = ((mrun zero s ops).1, .valueError :: (mrun zero s ops).2) := by
-  simp [mrun, mstep, madd, hd]
+    prun zero s (.add d x :: ops) = ((prun zero s ops).1, .valueError :: (prun zero s ops).2) := by
+  simp [prun, pstep, padd, hd]
 
 /-- **C16.4** ControlStream: for any interleaving of assignments and reads, every read yields
 the value most recently assigned before it (the constructor's value if none). -/
@@ -57,24 +73,15 @@ delivered).  One more `next` on the *model* raises StopIteration iff the stream 
 or keep is off and every event is over (`max_i(start_i + len_i) ≤ n`: nothing playing, nothing
 pending); otherwise it delivers `zero + Σ_{start_i ≤ n < start_i+len_i} data_i[n − start_i]`. -/
 theorem next_after_history [Add α] (zero : α) (keep : Bool) (ops : List (Op α)) :
-    (mrun zero (MState.init keep) (ops ++ [.next])).2 =
-      (mrun zero (MState.init keep) ops).2 ++
+    (prun zero (PState.init keep) (ops ++ [.next])).2 =
+      (prun zero (PState.init keep) ops).2 ++
         [if (srun zero (SState.init keep) ops).1.dead = true ∨
             ((srun zero (SState.init keep) ops).1.keep = false ∧
               mixLength (srun zero (SState.init keep) ops).1.evs ≤ (srun zero (SState.init keep) ops).1.n)
          then .stop
          else outObs zero (srun zero (SState.init keep) ops).1.evs (srun zero (SState.init keep) ops).1.n] := by
-  rw [streamix_model_eq_spec, streamix_model_eq_spec, srun_append]
-  generalize (srun zero (SState.init keep) ops).1 = s
-  simp only [srun, List.append_cancel_left_eq, List.cons.injEq, and_true]
-  by_cases hd : s.dead = true
-  · rw [sstep_next_dead zero s hd, if_pos (Or.inl hd)]
-  · have hd' : s.dead = false := by simpa using hd
-    by_cases hstop : s.keep = false ∧ mixLength s.evs ≤ s.n
-    · rw [sstep_next_stop zero s hd' ⟨hstop.1, (allDone_iff _ _).2 hstop.2⟩, if_pos (Or.inr hstop)]
-    · have h1 : ¬ (s.keep = false ∧ ∀ e ∈ s.evs, e.doneAt s.n) := fun h =>
-        hstop ⟨h.1, (allDone_iff _ _).1 h.2⟩
-      rw [sstep_next_out zero s hd' h1, if_neg (by rintro (h | h); exact hd h; exact hstop h)]
+  rw [generator_eq_fused, generator_eq_fused]
+  exact fused_next_after_history zero keep ops
 
 /-- **C16.6** (termination clause, events added before playback, keep off).  `k` consecutive
 `next`s after a batch of events with non-negative deltas deliver exactly the samples
@@ -82,22 +89,20 @@ theorem next_after_history [Add α] (zero : α) (keep : Bool) (ops : List (Op α
 (`L = 0`: the very first `next` stops), `start_i = ⌈T_i − 1/2⌉`. -/
 theorem finite_mix_batch [Add α] (zero : α) (evs : List (Rat × List α)) (h : ∀ p ∈ evs, 0 ≤ p.1)
     (k : Nat) :
-    (mrun zero (MState.init false) (addOps evs ++ List.replicate k .next)).2 =
+    (prun zero (PState.init false) (addOps evs ++ List.replicate k .next)).2 =
       List.replicate evs.length .ok ++
         ((List.range' 0 (min k (mixLength (batchLog 0 0 evs)))).map (outObs zero (batchLog 0 0 evs)) ++
           List.replicate (k - mixLength (batchLog 0 0 evs)) .stop) := by
-  rw [streamix_model_eq_spec, srun_append, srun_addOps zero evs _ h]
-  rw [srun_nexts_finite zero k _ rfl rfl]
-  simp [SState.init]
+  rw [generator_eq_fused]
+  exact fused_finite_mix_batch zero evs h k
 
 /-- **C16.7** (keep on): the same batch never ends; past `L` every sample is the zero value. -/
 theorem keep_mix_batch [Add α] (zero : α) (evs : List (Rat × List α)) (h : ∀ p ∈ evs, 0 ≤ p.1)
     (k : Nat) :
-    (mrun zero (MState.init true) (addOps evs ++ List.replicate k .next)).2 =
+    (prun zero (PState.init true) (addOps evs ++ List.replicate k .next)).2 =
       List.replicate evs.length .ok ++ (List.range' 0 k).map (outObs zero (batchLog 0 0 evs)) := by
-  rw [streamix_model_eq_spec, srun_append, srun_addOps zero evs _ h]
-  rw [srun_nexts_keep zero k _ rfl rfl]
-  simp [SState.init]
+  rw [generator_eq_fused]
+  exact fused_keep_mix_batch zero evs h k
 
 theorem zero_after_end [Add α] (zero : α) (evs : List (SEv α)) (n : Nat) (h : mixLength evs ≤ n) :
     outAt zero n evs = zero :=
@@ -106,15 +111,18 @@ theorem zero_after_end [Add α] (zero : α) (evs : List (SEv α)) (n : Nat) (h :
 /-- **C16.8** with keep on and never switched off, no `next` ever raises StopIteration, for any
 interleaving of adds and nexts. -/
 theorem keep_never_ends [Add α] (zero : α) (ops : List (Op α)) (h : keepOn ops) :
-    ∀ o ∈ (mrun zero (MState.init true) ops).2, o ≠ .stop :=
-  mrun_keep zero ops _ rfl rfl h
+    ∀ o ∈ (prun zero (PState.init true) ops).2, o ≠ .stop := by
+  rw [generator_eq_fused]
+  exact fused_keep_never_ends zero ops h
 
-/-- **C16.9** the end is final: if a `next` raised StopIteration, nothing that follows — more
-events, more `next`s, switching keep on — ever delivers a sample again. -/
-theorem end_is_final [Add α] (zero : α) (m : MState α) (h : (mstep zero m .next).2 = .stop)
-    (ops : List (Op α)) :
-    ∀ o ∈ (mrun zero (mstep zero m .next).1 ops).2, ∀ v k, o ≠ .out v k :=
-  (mrun_ended zero ops _ (mnext_stop_ended zero m h)).2
+/-- **C16.9** the end is final: if the last operation of a history `a` was a `next` that raised
+StopIteration, nothing in any continuation `b` — more events, more `next`s, switching keep on —
+ever delivers a sample again. -/
+theorem end_is_final [Add α] (zero : α) (keep : Bool) (a b : List (Op α))
+    (h : (prun zero (PState.init keep) a).2.getLast? = some .stop) :
+    ∀ o ∈ (prun zero (PState.init keep) (a ++ b)).2.drop a.length, ∀ v k, o ≠ .out v k := by
+  rw [generator_eq_fused] at h ⊢
+  exact fused_end_is_final_history zero _ a b h
 
 /-- **C16.10** (no drift, events added before playback).  Event `i` starts at the sample nearest
 to its exact cumulative time `T_i = d_0 + … + d_i` (a tie `k + 1/2` goes to `k`): the error is
@@ -148,7 +156,7 @@ theorem start_three_term [Add α] (zero : α) (keep : Bool) (ops : List (Op α))
 /-! non-vacuity: the statements are about non-trivial inputs -/
 
 -- the docstring example: [-1, 1, 4, 1, -3, -5, -7, -1], then the end
-example : (mrun (0 : Int) (MState.init false)
+example : (prun (0 : Int) (PState.init false)
     [.add 0 [-1, 1, 3, 2], .add 2 [4, 4, 4], .add 0 [-3, -5, -7, -5, -7, -1],
      .next, .next, .next, .next, .next, .next, .next, .next, .next]).2
     = [.ok, .ok, .ok, .out (-1) 1, .out 1 0, .out 4 2, .out 1 0, .out (-3) 0, .out (-5) 0, .out (-7) 0,
@@ -159,23 +167,34 @@ example : (batchLog 0 0 [((1:Rat)/2, [(1:Int)]), (1/2, [10]), (1/2, [100, 100]),
     = [0, 1, 1, 2] := by decide +kernel
 example : mixLength (batchLog 0 0 [((1:Rat)/2, [(1:Int)]), (1/2, [10]), (1/2, [100, 100]), (1, [1000])]) = 3 := by
   decide +kernel
-example : (mrun (0 : Int) (MState.init false)
+example : (prun (0 : Int) (PState.init false)
     (addOps [((1:Rat)/2, [(1:Int)]), (1/2, [10]), (1/2, [100, 100]), (1, [1000])] ++ List.replicate 5 .next)).2
     = [.ok, .ok, .ok, .ok, .out 1 1, .out 110 2, .out 1100 1, .stop, .stop] := by decide +kernel
 -- a late addition starts at the moment it was added, not at its (past) cumulative time;
 -- adding after the end does not revive the stream
-example : (mrun (0 : Int) (MState.init false)
+example : (prun (0 : Int) (PState.init false)
     [.add 0 [1, 1, 1], .next, .next, .add 0 [10], .next, .next, .add 5 [7], .next, .add 0 [3], .next]).2
     = [.ok, .out 1 1, .out 1 0, .ok, .out 11 1, .stop, .ok, .stop, .ok, .stop] := by decide +kernel
 -- keep on: zero for ever after the events
-example : (mrun (0 : Int) (MState.init true) [.add 1 [5], .next, .next, .next, .next]).2
+example : (prun (0 : Int) (PState.init true) [.add 1 [5], .next, .next, .next, .next]).2
     = [.ok, .out 0 0, .out 5 1, .out 0 0, .out 0 0] := by decide +kernel
 -- a rejected add
-example : (mrun (0 : Int) (MState.init false) [.add (-1) [5], .next]).2 = [.valueError, .stop] := by
+example : (prun (0 : Int) (PState.init false) [.add (-1) [5], .next]).2 = [.valueError, .stop] := by
   decide +kernel
 -- ControlStream
 example : crun (7 : Nat) [.read, .set 9, .read, .read, .set 1, .set 2, .read] =
     [some 7, none, some 9, some 9, none, none, some 2] := by decide
+
+-- end_is_final, instantiated: the stream ended at the third operation
+example : (prun (0 : Int) (PState.init false) [.add 0 [1], .next, .next]).2.getLast? = some .stop := by
+  decide +kernel
+-- keep_never_ends, instantiated
+example : keepOn ([.add 1 [5], .setKeep true, .next] : List (Op Int)) := by simp [keepOn]
+-- the hypotheses of finite_mix_batch / no_drift hold for the batch used above
+example : ∀ p ∈ [((1:Rat)/2, [(1:Int)]), (1/2, [10]), (1/2, [100, 100]), (1, [1000])], 0 ≤ p.1 := by
+  intro p hp; simp at hp; rcases hp with rfl | rfl | rfl | rfl <;> norm_num
+-- negative_delta_rejected: the hypothesis is satisfiable
+example : ((-1 : Rat)/2) < 0 := by norm_num
 
 end ALV.Props.C16
 
